@@ -435,6 +435,7 @@ pub fn check_case(case: &Case17, legs: &[Leg], rep: &mut Report) {
         }
     };
     let transcoded = reference_transcode(&case.raw, case.label, case.sniff);
+    crate::report::set_engine_probe(&[case.pattern.clone()], &flags, &[&transcoded]);
     // reference: plain search of the transcoded bytes
     let mut ref_cfg = case.cfg.clone();
     ref_cfg.encoding = None;
